@@ -12,7 +12,7 @@ CHECKS = {
          'trusts the reference codec/layout table in harness/refcodec (validated against the captured packets), derived Debug/PartialEq of the types, and the field-name list in zvtmon/src/build.rs', '8 C01, 5'),
  'C02': ('exploration', 'runtime monitors on hostile inputs: panic/overflow detection (catch_unwind in an overflow-checked build), counting global allocator, progress watchdog, debug/release digest differential; Miri slice in the thorough tier',
          'Held on the inputs explored: all inputs of length <= 2 and all cf+body<=2 exhaustively for 72 decoders, every truncation and single-byte substitution of a corpus, millions of structure-aware mutants. Inputs not generated are not covered.',
-         'trusts rustc overflow checks / unwinding to surface arithmetic and indexing faults; allocation bound 256 x len + 256 KiB; watchdog margin 10 s', '8 C02, 10'),
+         'trusts rustc overflow checks / unwinding to surface arithmetic and indexing faults; allocation bound 64 x len + 16 KiB; no-progress = 10 s inside one call in the run and 10 s of CPU time (or 2 GiB) alone in a fresh process; numbers that do not fit: BER lengths and calendar entries must be an error or exactly the number written', '8 C02, 10'),
  'C03': ('exploration', 'differential against an independent reference codec interpreting a hand-written layout table, both directions, byte-exact',
          'Held on the executions explored (same workload as C01, each optional field additionally alone for attribution). The layout table is the second statement of the specification; agreement is checked, not proved.',
          'trusts the layout table harness/refcodec/src/layout_zvt.txt as the statement of the ZVT/Feig specification', '8 C03, 5.2, Appendix A'),
